@@ -330,6 +330,61 @@ func runItem(w *hx.Worker, sh *shared, it genfam.Item, onlyInput *string) {
 		}
 		return
 	}
+	// the generated definition's other entry points (LexString, LexBytes with the caller overwriting its buffer
+	// once the tokens are out) give what Lex(reader) gives - which is compared with the runtime lexer below
+	if onlyInput == nil && len(ins) > 2 {
+		for _, in := range []string{ins[len(ins)-1], ins[len(ins)/2], ins[len(ins)/3]} {
+			want := lexdrive.Drive(gen, "f.txt", in, 0)
+			if want.Panicked != "" {
+				continue
+			}
+			collect := func(lx lexer.Lexer, err error, after func()) (r lexdrive.Run) {
+				pan, msg := hx.Guard(func() {
+					if err != nil {
+						r.Err = err
+						return
+					}
+					for len(r.Toks) <= 64 {
+						t, err := lx.Next()
+						if err != nil {
+							r.Err = err
+							break
+						}
+						if t.EOF() {
+							tt := t
+							r.EOF = &tt
+							break
+						}
+						r.Toks = append(r.Toks, t)
+					}
+					after()
+				})
+				if pan {
+					r.Panicked = msg
+				}
+				return
+			}
+			w.Count("evaluations", 1)
+			if sd, ok := gen.(lexer.StringDefinition); ok {
+				lx, err := sd.LexString("f.txt", in)
+				if d := sameRun(want, collect(lx, err, func() {})); d != "" {
+					w.Violate(hx.Violation{Key: key(it, in) + " :: LexString", Class: "generated-differs", Detail: map[string]any{"what": "generated LexString vs generated Lex(reader): " + d}})
+				}
+			}
+			if bd, ok := gen.(lexer.BytesDefinition); ok {
+				buf := []byte(in)
+				lx, err := bd.LexBytes("f.txt", buf)
+				got := collect(lx, err, func() {
+					for i := range buf {
+						buf[i] = '#'
+					}
+				})
+				if d := sameRun(want, got); d != "" {
+					w.Violate(hx.Violation{Key: key(it, in) + " :: LexBytes, buffer reused", Class: "generated-differs", Detail: map[string]any{"what": "generated LexBytes (caller overwrites its buffer afterwards) vs generated Lex(reader): " + d}})
+				}
+			}
+		}
+	}
 	for _, in := range ins {
 		w.Case(func() string { return key(it, in) })
 		w.Count("evaluations", 1)
